@@ -13,11 +13,16 @@ import (
 )
 
 func (e *Engine) newVC(fn *ssa.Function, c *Contract, dropped map[string]bool) *VC {
+	return e.newVCMode(fn, c, dropped, "")
+}
+
+func (e *Engine) newVCMode(fn *ssa.Function, c *Contract, dropped map[string]bool, mode string) *VC {
 	vc := &VC{e: e, fn: fn, c: c, vals: map[ssa.Value]*Val{}, globals: map[*ssa.Global]string{}, strlits: map[string]string{},
 		obCount: map[string]int{}, dropped: dropped, trusted: map[string]bool{}, callees: map[string]bool{}, csHit: map[*CallSite]bool{}, obReturn: map[*Obligation]*ssa.Return{}}
-	if c != nil && c.Mode == "int" {
-		vc.intMode = true
+	if mode == "" && c != nil && c.Mode == "int" {
+		mode = "int"
 	}
+	vc.intMode = mode == "int"
 	vc.heap0 = vc.newHeap0()
 	vc.decls = append(vc.decls, "(assert (< 0 alloc0))")
 	return vc
@@ -25,13 +30,16 @@ func (e *Engine) newVC(fn *ssa.Function, c *Contract, dropped map[string]bool) *
 
 var genMu sync.Mutex
 
-func (e *Engine) genVC(fn *ssa.Function, dropped map[string]bool) (vc *VC, err error) {
+func (e *Engine) genVC(fn *ssa.Function, dropped map[string]bool, mode string) (vc *VC, err error) {
 	genMu.Lock()
 	defer genMu.Unlock()
 	c := e.contractFor(fn)
-	genIntMode = c != nil && c.Mode == "int"
+	if mode == "" && c != nil && c.Mode == "int" {
+		mode = "int"
+	}
+	genIntMode = mode == "int"
 	defer func() { genIntMode = false }()
-	vc = e.newVC(fn, c, dropped)
+	vc = e.newVCMode(fn, c, dropped, mode)
 	defer func() {
 		if r := recover(); r != nil {
 			if sf, ok := r.(specFail); ok {
@@ -64,17 +72,47 @@ func lastLines(s string, n int) string {
 	return strings.Join(ls, "\n")
 }
 
-// verifyFunc generates and discharges all obligations of one function.
+// verifyFunc generates and discharges all obligations of one function, in every integer mode its contract
+// has clauses for (its own mode first).
 func (e *Engine) verifyFunc(fn *ssa.Function, cfg SolverCfg) *FuncResult {
+	modes := []string{""}
+	if c := e.contractFor(fn); c != nil {
+		modes = c.modes()
+	}
+	var res *FuncResult
+	for i, m := range modes {
+		r := e.verifyFuncMode(fn, cfg, m)
+		if i == 0 {
+			res = r
+			continue
+		}
+		// merge: obligations of the secondary mode are renamed with a mode suffix
+		for _, o := range r.Obs {
+			o.Ob.Name += "@" + m
+			res.Obs = append(res.Obs, o)
+		}
+		res.Notes = append(res.Notes, r.Notes...)
+		if r.GenError != "" && res.GenError == "" {
+			res.GenError = "[" + m + " mode] " + r.GenError
+		}
+		if r.PreSat == "unsat" {
+			res.PreSat = "unsat"
+		}
+		res.Seconds += r.Seconds
+	}
+	return res
+}
+
+func (e *Engine) verifyFuncMode(fn *ssa.Function, cfg SolverCfg, mode string) *FuncResult {
 	t0 := time.Now()
 	res := &FuncResult{Fn: fn.String(), Key: e.fnKey(fn)}
 	dropped := map[string]bool{}
 	var vc *VC
 	var err error
-	base := fileBaseFor(res.Key)
+	base := fileBaseFor(res.Key) + mode
 	for iter := 0; ; iter++ {
 		res.Iter = iter
-		vc, err = e.genVC(fn, dropped)
+		vc, err = e.genVC(fn, dropped, mode)
 		if err != nil {
 			res.GenError = err.Error()
 			res.Seconds = time.Since(t0).Seconds()
